@@ -250,6 +250,28 @@ PROPS["C15"] = dict(
                "Outside the hypothesis (same URR under two periods) DEL removes the pair from one group only, chosen by map order — noted, not claimed.",
 )
 
+
+PROPS["C20"] = dict(
+    module="UpfVerif.Props.C20",
+    streams=[dict(name="config", shards=2, shards_thorough=12, seed_per_shard=True, timeout=900, timeout_thorough=3000)],
+    rule="S-config: YAML documents generated from the valid configuration by deleting / zeroing / null-ing / mistyping / validator-violating replacement of any subset of fields "
+         "(1/6 valid incl. optional-field variants, 1/2 about one fault, 1/3 several faults; 1-3 interface and DNN entries; node ids IPv4, FQDN, localhost, IPv6 literals, unresolvable names), "
+         "run through the real factory.ReadConfig and (in a process of its own) forwarder.NewDriver up to OpenGtp5g; accepted values compared with the document; "
+         "version strings x.y.z on a grid around both bounds, big segments, two-segment and unparsable strings through the real checkVersion and the simulated GET_VERSION",
+    trusted_base=["model Model/Config.lean of pkg/factory/factory.go ReadConfig (decode / govalidator tag interpretation / node-id resolution), forwarder.NewDriver's pre-checks and Gtp5g.checkVersion, "
+                  "hand-written, tied by the S-config differential stream; Gen/ConfigTags.lean and the version bounds regenerated from /repo each run (T1)",
+                  "Spec/ConfigSpec.lean: the acceptable documents written out field by field without reference to tags; the abstraction of a document to field classes "
+                  "(the harness renders each class to concrete YAML; which concrete strings are 'a host', 'a CIDR' is govalidator's / net's decision, exercised but not modelled)",
+                  "yaml.v2, govalidator (host / cidr regexes, required/optional semantics), hashicorp/go-version beyond numeric x.y.z, DNS: environment"],
+    assumptions=["node-id resolution is an environment input (the harness asks the same resolver)", "numeric module versions of two or three segments"],
+    level_text="Kernel-checked (Props/C20.lean): startup_iff_spec — for EVERY abstract document (any number of entries, every class of every field) the start-up checks as coded "
+               "(decode, govalidator over the regenerated tags, node-id resolution, NewDriver pre-checks) accept exactly the documents Spec.ConfigSpec lists; per-field lemmas and the in(...) "
+               "value lists are evaluated by the kernel on the regenerated tag table; version_window — for all naturals x y z, x.y.z accepted iff 0.9.5 <= x.y.z < 0.10.0 with the regenerated bounds. "
+               "Tie: T1 tags + bounds; S-config on the real ReadConfig / NewDriver / checkVersion, with the spec evaluated on the implementation's verdicts and the accepted values compared.",
+    level_note="Trusted: Lean kernel; the class abstraction and the harness's rendering of classes; yaml.v2 / govalidator / go-version as libraries (exercised, not modelled). "
+               "'accepted values appear unchanged' is checked by the harness on every accepted document (not a theorem: it is a statement about yaml.v2).",
+)
+
 # properties not claimed yet (kept current; every property has a planned executable model, see DESIGN.md)
 NOT_APPLICABLE = {}
 for _i in range(1, 21):
